@@ -322,6 +322,35 @@ def loop_spellings() -> List[str]:
     return out
 
 
+def missing_then_up_spellings(max_k: int = 3, full: bool = False) -> List[str]:
+    """Spellings in which k components that the kernel cannot walk -- names that do NOT EXIST, nested k deep, or a REGULAR
+    FILE used as a directory -- are followed by enough '..' to cancel them (and the existing prefix they hang under)
+    lexically, BEFORE a symlink name: '<prefix>/nope1/../..' + '/ln_out/secret.txt'.  To the kernel the string is
+    ENOENT / ENOTDIR; a resolver that canonicalises only the part that exists and normalises the rest lexically sees
+    '<root>/ln_out/secret.txt' and never looks at the link.  Over pathfs.standard_spec: every k in 1..max_k, below the root,
+    below data/ and (full) below data/sub and through the inward link ln_in; targets: outward directory / file links (read,
+    list, create, delete through them), the sibling-prefix link, and inside controls; table-relative and Iceberg-style."""
+    targets = ["ln_out/secret.txt", "ln_out", "ln_out/new.bin", "data/ln_file", "data/ln_dir/secret.txt", "ln_sib/secret.txt"]
+    controls = ["data/f.parquet"]
+    if full:
+        targets += ["ln_up/" + SIB_NAME + "/secret.txt", "ln_out/data/f.parquet", "ln_abs/../ln_out/x", "ln_loop/../ln_out/secret.txt"]
+        controls += ["ln_in/f.parquet", "new.bin"]
+    # (existing prefix under the root, its depth, what blocks the walk right below it)
+    hangs = [("", 0, "nope"), ("", 0, "x"), ("data", 1, "nope"), ("data", 1, "f.parquet")]
+    if full:
+        hangs += [("data/sub", 2, "nope"), ("ln_in", 1, "nope"), ("metadata", 1, "m.json"), ("ln_in/sub", 2, "g.parquet")]
+    seen: Dict[str, None] = {}
+    for prefix, depth, blocker in hangs:
+        for k in range(1, max_k + 1):
+            walk = [blocker] + [f"nope{i}" for i in range(2, k + 1)]
+            head = "/".join(([prefix] if prefix else []) + walk + [".."] * (k + depth))
+            for t in targets + controls:
+                seen.setdefault(head + "/" + t)
+                if blocker == "nope" or full:
+                    seen.setdefault("/" + head + "/" + t)
+    return list(seen)
+
+
 # ------------------------------------------------------------------------------------------ kernel locator
 def kernel_locate(path: str, follow: bool = True) -> Optional[str]:
     """Canonical location of `path` as the KERNEL resolves it (O_PATH + /proc/self/fd), or None when the
